@@ -92,10 +92,19 @@ PROPS = {
                      "HqModel.C12.c12_f12_regression", "HqModel.C12.c12_f25_witness2", "HqModel.C12.c12_full2_statement_false",
                      "HqModel.C12.c12_prune_equiv_partial", "HqModel.C12.c12_f12_witness"],
         "parts": [dict(_PART, tags=["pn", "prec", "res", "job", "cnt", "task", "sub", "adj", "core", "queue"],
-                       clauses=["c12."])],
+                       clauses=["c12."]),
+                  # the live sets `handle_prune_journal` computes: prune requests through the real rpc loop in simulated cluster
+                  # runs with the journal sink; monitor c12.live_sets = the hypothesis LiveCovers of the theorems on real runs
+                  {"component": "job", "driver": "hqm-job", "name": "job_prune", "tags": ["ev", "job", "tasks", "!panic"],
+                   "clauses": ["c12."],
+                   "quick": {"cases": 15, "shards": 12, "extra": ["--wait"]},
+                   "thorough": {"cases": 150, "shards": 16, "extra": ["--wait"]}}],
         "assumptions": [
             "live sets are the ones `handle_prune_journal` computes: jobs of the State that are not terminated, workers that "
-            "are connected; prune is requested between two server actions",
+            "are connected; prune is requested between two server actions; that these sets cover every job without a JobCompleted "
+            "record and every connected worker (hypothesis LiveCovers) is checked on real runs: prune requests go through the real rpc "
+            "loop in simulated cluster runs and the sets that reach the journal thread are compared with the persisted events "
+            "(part job_prune, monitor c12.live_sets)",
             "c12_prune2_equiv_partial (the code after fix 13acddd; prune2 = the stateful prune that keeps the WorkerLost of every worker "
             "named in a kept TaskStarted): SameView2 = all job entries INCLUDING crash counters, job tables equal as lists, queues, uid, for "
             "EVERY journal that restores, and c12_prune2_restore at the level of restore (jobs, TaskSubmit batches with adjust maps); the "
